@@ -2,7 +2,7 @@
 import vcheck
 
 PID = "C08"
-MODULES = ["BeffVerif.Props.C08"]
+MODULES = ["BeffVerif.Props.C08", "BeffVerif.Props.C08Decls"]
 AUDIT = "BeffVerif/Audit/C08.lean"
 TAGS = ("c08.",)
 HYP = {"NoNamingNearUnion": "D11", "NoNamedIntersectionMember": "D39", "NoNamingWithRecursion": "D41"}
@@ -41,7 +41,7 @@ def run(chk):
     return vcheck.generic_run(chk, MODULES, AUDIT, passes,
         ["C08: same models as C01 (TsCore, lowering, IR, printer, reference semantics); the rewrites are applied by harness/js/mode_prog.mjs on the TsCore term and rendered as TypeScript",
          "C08: hash256 of the two real validators is compared directly (no model of the token stream is involved)"],
-        ["rewrite_validate for ALL rewrites as one theorem over rewrite derivations — proved per rewrite at the reference level only (union/intersection/member permutation, paren, readonly, alias unfold, identity wrapper); declaration reordering, renaming and interface↔alias are covered by the correspondence only",
+        ["rewrite_validate for ALL rewrites as one theorem over rewrite derivations — proved per rewrite at the reference level only (union/intersection/member permutation, paren, readonly, alias unfold, identity wrapper, declaration reordering — spec_decls_perm); renaming and interface↔alias are covered by the correspondence only",
          "rewrite_hash256: false on the current code for naming rewrites (D11, D39, D41); for name-free rewrites it is decided by direct comparison of the two real digests"],
         RULE)
 
